@@ -81,6 +81,12 @@ def run(chk):
                         return check(SL, pk)
                     chk.run("C13.R1", SITE[eq_type], cfg, go, construct=f"system terms[{eq_type}]")
 
+        # a system of hyper-network wrappers (PDE systems take the network kind from the first unknown)
+        if eq_type != 'ODE':
+            cfg = {"loss": eq_type, "net": "HYPERPINN", "weights": "scalar", "terms": ["dyn"]}
+            chk.run("C13.R1", SITE[eq_type], cfg, (lambda eq_type=eq_type: check(SystemLoss(E, eq_type, 'HYPERPINN', terms=('dyn',)))),
+                    construct=f"system terms[{eq_type}, HYPERPINN]")
+
         # the dictionaries of a system are keyed by name: the insertion order of any ONE of them (unknowns, equations, weights,
         # per-unknown specifications) is immaterial - pairing two of them by position is reported here
         for rev in (('u',), ('dyn',), ('weights',), ('specs',)):
